@@ -149,7 +149,7 @@ def g_overwrite_rel(rng, seq):
 def g_pad(rng, seq):
     d = _duration(seq)
     return {"n": rng.choice([0, d, d + 1, max(0, d - 1), d + rng.randrange(1, 100), rng.randrange(0, 400), 96, 192,
-                             rng.choice([96, 100000])])}
+                             rng.choice([96, 5000])])}
 
 
 def g_set_channel(rng, seq):
@@ -503,7 +503,9 @@ def pre_scale(s, a):
     the integers; scale(0.5) on an odd wait would create half ticks, which no view conversion is required to preserve)."""
     f = a["factor"]
     if f >= 1:
-        return True
+        # keep the tick domain bounded (DESIGN 3.6): repeated scaling would otherwise reach millions of ticks and the bar
+        # splitting inside a later fractional scale would take minutes - slow, not wrong
+        return _duration(s) * f <= MAX_TICKS
     try:
         r = observe.clone_seq(s).rel._messages
     except Exception:
@@ -512,7 +514,12 @@ def pre_scale(s, a):
     return all((m.time % inv) == 0 for m in r if m.message_type is MT.WAIT)
 
 
-PRECOND = {"scale": pre_scale}
+def pre_pad(s, a):
+    return a["n"] <= MAX_TICKS
+
+
+MAX_TICKS = 20000
+PRECOND = {"scale": pre_scale, "pad": pre_pad}
 
 # ------------------------------------------------------------------ the table
 
